@@ -42,6 +42,12 @@ type vOpts struct {
 	MaxInuse   int   `json:"max_inuse,omitempty"`
 	LRUSamples int   `json:"lru_samples,omitempty"`
 	MaxIdleMs  int64 `json:"max_idle_ms,omitempty"`
+	// The members' internal client (forwarding, replication). In the harness it does not re-send a request that
+	// timed out: a re-sent Incr or GetPut is applied twice (recorded finding, C07 part retry), and on a loaded
+	// machine that would hit every check at random. ClientRetries restores the default (3 re-sends),
+	// ClientReadTimeoutMs replaces the default read timeout of 3 s.
+	ClientRetries       bool  `json:"client_retries,omitempty"`
+	ClientReadTimeoutMs int64 `json:"client_read_timeout_ms,omitempty"`
 }
 
 func (o vOpts) key() string { return fmt.Sprintf("%+v", o) }
@@ -104,6 +110,14 @@ func vConfig(o vOpts) *config.Config {
 		c.MemberCountQuorum = int32(o.MCQ)
 	}
 	c.ReadRepair = o.ReadRepair
+	c.Client = config.NewClient()
+	c.Client.MaxRetries = -1
+	if o.ClientRetries {
+		c.Client.MaxRetries = 0 // Sanitize turns 0 into the default of 3
+	}
+	if o.ClientReadTimeoutMs > 0 {
+		c.Client.ReadTimeout = time.Duration(o.ClientReadTimeoutMs) * time.Millisecond
+	}
 	c.BootstrapTimeout = 5 * time.Second
 	c.JoinRetryInterval = 50 * time.Millisecond
 	c.MaxJoinAttempts = 40
